@@ -18,7 +18,7 @@ ASSUMPTIONS = ['shift invariance is judged on matrices whose entries are all sto
                'no stored logit is exactly 0.0', 'tolerance 1e-9 (float64)']
 N = {'quick': 3000, 'thorough': 100000}
 CLASSES = ['dense', 'dense_peaky', 'sparse_floor', 'onehot', 'transformer', 'bag', 'bag_lm', 'bag_extreme', 'threshold', 'alto_wc']
-REQUIRED = ['repo_tests_under_contracts', 'line_conf_checked', 'shift_checked', 'onehot_checked', 'letter_conf_checked', 'page_conf_checked', 'bag_checked', 'monotone_checked', 'wc_checked',
+REQUIRED = ['bag_history_steps', 'repo_tests_under_contracts', 'line_conf_checked', 'shift_checked', 'onehot_checked', 'letter_conf_checked', 'page_conf_checked', 'bag_checked', 'monotone_checked', 'wc_checked',
             'contract:get_line_confidence in [0,1], one per label', 'contract:posteriors <= 0 and sum to 1', 'contract:compute_line_confidence in [0,1]']
 TOL = 1e-9
 
@@ -94,6 +94,24 @@ def check_bag(case, mon, ctx):
             break
     if b.transcript_confidence('not in the bag') != 0.0:
         mon.violation('transcript-confidence', {'note': 'unknown transcript has non-zero confidence'})
+    # history on the same long-lived bag: change the (public) LM weight, then add a hypothesis; every query must reflect the current state
+    for step, (neww, extra_h) in enumerate(((3.0 if case['weight'] != 3.0 else 0.5, None), (None, ('added', -0.75, None if case['lm'] is None else -1.5)))):
+        vis, lms = list(case['vis']), (None if case['lm'] is None else list(case['lm']))
+        if neww is not None:
+            b.lm_weight = neww
+        wnow = b.lm_weight
+        if extra_h is not None:
+            b.add(*extra_h)
+            vis.append(extra_h[1])
+            if lms is not None:
+                lms.append(extra_h[2])
+        tot2 = np.array([v + (wnow * lms[k] if lms is not None else 0.0) for k, v in enumerate(vis)])
+        exp2 = np.exp(tot2 - np.logaddexp.reduce(tot2))
+        p2 = np.exp(np.asarray(b.posteriors(), dtype=np.float64))
+        mon.count('bag_history_steps')
+        if p2.shape != exp2.shape or np.abs(p2 - exp2).max() > 1e-9 or abs(b.confidence() - exp2.max()) > 1e-9 or not in_unit(b.confidence()):
+            mon.violation('posteriors-from-normalised-scores', {'after': 'lm_weight changed to %r' % neww if neww is not None else 'a hypothesis was added', 'got': p2, 'expected': exp2, 'confidence': b.confidence()})
+            break
     # a constant added to every score (one "frame" of scores) must not change posteriors
     b2 = ctx.BOH(lm_weight=case['weight'])
     for k, v in enumerate(case['vis']):
